@@ -116,6 +116,23 @@ impl Model {
     }
 
     /// Registers a block that exists (was built) but is not (yet) part of the canister's view.
+    pub fn add_block_detached(&mut self, parent: usize, block: Block, diff: u128) -> usize {
+        let id = self.add_block(parent, block, diff);
+        self.live.remove(&id);
+        id
+    }
+
+    /// Marks a detached block as admitted. Returns false if its parent is not live.
+    pub fn admit(&mut self, id: usize) -> bool {
+        match self.blocks[id].parent {
+            Some(p) if self.live.contains(&p) => {
+                self.live.insert(id);
+                true
+            }
+            _ => false,
+        }
+    }
+
     pub fn id_of(&self, hash: &H32) -> Option<usize> {
         self.by_hash.get(hash).copied()
     }
